@@ -210,6 +210,26 @@ def spec_diff(r):
             rows.append(('readme', 'float-member-not-aligned4', s['short'], '', 0, 0,
                          'struct %s: floating point / nested struct member(s) %r not on a 4-byte boundary' % (s['short'], badf),
                          {'table': 'readme', 'kind': 'float-member-not-aligned4', 'struct': s['short'], 'member': '', 'members': badf}))
+    # value rows: |obs - raw*scale| * 2^40 <= |raw*scale| (exact integer arithmetic)
+    for x in r.get('value_rows', []):
+        if x.get('skip'):
+            continue
+        en, ed = x['raw'][0] * x['scale'][0], x['raw'][1] * x['scale'][1]
+        obs = x['obs'] or [0, 0]
+        ok = obs[1] > 0 and ed > 0 and en != 0 and abs(obs[0] * ed - en * obs[1]) * 2 ** 40 <= abs(en * obs[1])
+        if not ok:
+            from fractions import Fraction
+            exp = Fraction(en, ed)
+            got = ('%s' % float(Fraction(obs[0], obs[1]))) if obs[1] > 0 else 'nothing (%s)' % x.get('note', 'no value')
+            if x['how'].startswith('unpack'):
+                txt = ('%s::%s: C++ value %s written little-endian at the member\'s C++ offset; Python (%s) reads %s, the C++ struct means %s (scale %d/%d)'
+                       % (x['struct'], x['leaf'], float(Fraction(*x['raw'])), x['how'], got, float(exp), x['scale'][0], x['scale'][1]))
+            else:
+                txt = ('%s::%s: Python value for C++ %s set and packed (%s); at the member\'s C++ offset the bytes hold %s'
+                       % (x['struct'], x['leaf'], float(Fraction(*x['raw'])), x['how'], got))
+            rows.append(('value', x['how'], x['struct'], x['leaf'], 0, 0, txt,
+                         {'table': 'value', 'kind': x['how'], 'struct': x['struct'], 'member': x['leaf'], 'raw': x['raw'], 'scale': x['scale'],
+                          'observed': x['obs'], 'note': x.get('note')}))
     for n, why in r['unmatched']:
         rows.append(('layout', 'no-python-counterpart', n, '', 0, 0, 'C++ struct %s has no Python counterpart: %s' % (n, why),
                      {'table': 'layout', 'kind': 'no-python-counterpart', 'struct': n, 'member': ''}))
@@ -316,6 +336,10 @@ def run(ctx):
         'matching': {s['cpp']: '%s (%s)' % (s['py'], s['matched_by']) for s in r['specs']},
         'exception_table': {k: v for k, v in r['names'].items() if k in ('merge', 'dead', 'rename', 'ignore', 'overrides')},
         'mismatching_rows': len(spec),
+        'value_rows': sum(1 for x in r['value_rows'] if not x.get('skip')),
+        'value_rows_by_kind': {k: sum(1 for x in r['value_rows'] if not x.get('skip') and x['how'] == k) for k in sorted({x['how'] for x in r['value_rows'] if not x.get('skip')})},
+        'value_leaves_without_value_semantics': r['value_skipped'],
+        'value_rows_skipped': sorted({'%s::%s: %s' % (x['struct'], x['leaf'].split('[')[0], x['skip'][:90]) for x in r['value_rows'] if x.get('skip')}),
     })
     ctx.sample({'PoseMessage members': [(m['name'], m['offset'], m['size']) for m in cmpo.by['PoseMessage']['members'][:6]]})
     pm = (gen_c02.path_result(res, 'PoseMessage', 'default') or {}).get('bytes', [])
@@ -323,11 +347,12 @@ def run(ctx):
     ctx.trusted_base += ['Coq 8.16.1 kernel + vm_compute', 'clang++-14 and g++ as evaluators of the C++ layout (three outputs must agree; _MSC_VER undefined, x86-64)',
                          'translators/gen_c03.py tokenizer (finds the P1_ALIGNAS(4) structs; fail closed) and translators/gen_c02.py (dump parser)',
                          'harness/py/c02_probe.py: what "an attribute changed" means (canonical deep comparison, NaN-safe), XOR masks, zero / 0x01 tails',
-                         'harness/c02_names.json (committed): 16 sub-structure counterparts, 2 probing baselines, merge/dead/ignore exception rows',
+                         'harness/c02_names.json (committed): 16 sub-structure counterparts, 2 probing baselines, merge/dead/rename/ignore rows, scale rows (fixed-point and unit factors, each citing the C++ header)',
+                         'harness/py/c02_values.py: little-endian IEEE/two\'s-complement encoding of the test values at the C++ offsets (x86-64), exact fractions of what Python shows',
                          'extraction (ExtrOcamlBasic only) + ocaml/c02_driver.ml, used only to name the failing rows']
     ctx.assumptions += ['a byte is "read" when changing it changes an attribute, the consumed length, or makes unpack raise; bytes observed only through '
                         'exceptions (strict enums, length checks) are listed in evidence',
-                        'value-level interpretation inside a member (endianness, scaling) is not compared here: C02 is about offsets, widths and sizes']
+                        'value rows use an all-zero buffer except for the one leaf under test; invalid-value sentinels (0x7FFF..., 0xFFFFFFFF) are not among the test values']
 
 
 def replay(ctx, rec):
